@@ -238,6 +238,20 @@ CLAIMED["C37"] = (
     "DESIGN.md section 6 C37",
 )
 
+CLAIMED["C41"] = (
+    "InterpolationTable (construction, interpolate, gradient, base-vertex search, weights) and "
+    "AdaptiveInterpolationTable (on-demand evaluation through its sparse storage) are executed with symbolic box "
+    "limits, symbolic multilinear coefficients and a symbolic query point anywhere in the closed box; the "
+    "base-vertex index forks the paths (every cell and the upper boundary are separate paths). z3 decides: the "
+    "interpolant equals the multilinear function, the gradient is exact for linear functions, vectorised "
+    "queries agree with single ones, the adaptive table agrees with the standard table (value, second cached "
+    "query, gradient), and no query inside the box raises.",
+    "Floats as exact reals; 1-2 parameters with 2-3 points per axis (quick), up to 3 parameters / 4 points "
+    "(thorough); adaptive table on a dyadic grid; scalar-valued tables.",
+    "symbolic execution of the interpolation tables on z3 terms (floor as integer case split) + SMT",
+    "DESIGN.md section 6 C41",
+)
+
 NOT_APPLICABLE = {
     "C11": "MPFA local systems are inverted in LAPACK/numba kernels on data-dependent block structures; a symbolic inverse of the interaction-region blocks is beyond z3/cvc5 and with concrete matrices nothing quantified remains for a solver.",
     "C13": "MPSA: same obstacle as C11 with 2-3x larger local systems.",
